@@ -36,6 +36,12 @@ func (x *Exec) queryOpt(st *State, goal string, light bool) string {
 		b.WriteString(l)
 		b.WriteByte('\n')
 	}
+	// string([]byte(s)) == s
+	if _, a := x.decls.set["gstr.bytes"]; a {
+		if _, c := x.decls.set["gstr.of"]; c && x.mode == ModeInt {
+			b.WriteString("(assert (forall ((s Str)) (! (= (gstr.of (gstr.bytes s) 0 (gstr.len s)) s) :pattern ((gstr.bytes s)))))\n")
+		}
+	}
 	for _, l := range st.lines {
 		if light && strings.HasPrefix(l, "(assert ") && (strings.Contains(l, "(forall ") || strings.Contains(l, "(exists ")) {
 			continue
